@@ -21,8 +21,8 @@ ASSUMPTIONS = ['vmon/ref/codec.py strict and lenient decoders (self-tested at se
                'bit 128 set, upper-case hex bitmap, masked elements shorter than 10 characters are don\'t-care for acceptance',
                'a non-library exception counts as a rejection here (C07 reports it)']
 SHARD_TIMEOUT = {'quick': 900, 'thorough': 5400}
-ENCODINGS = ('latin_1', 'cp500', 'cp864', 'ascii')
-FAMILIES = ('identity', 'valid_variants', 'prefix_digit_replacements', 'prefix_rewrites', 'logical_bitmap_flips', 'zero_length_fields',
+ENCODINGS = ('latin_1', 'cp500', 'cp864', 'ascii', 'utf_8')
+FAMILIES = ('identity', 'valid_variants', 'hex_bitmap_spellings', 'prefix_digit_replacements', 'prefix_rewrites', 'logical_bitmap_flips', 'zero_length_fields',
             'edge_trims', 'multipoint')
 
 
@@ -36,8 +36,8 @@ def finish(ctx):
 
 def base(ctx, k):
     """C07's bases re-encoded under C08's codec list, plus generated messages under generated configurations."""
-    enc = ENCODINGS[k % 4]
-    hexbm = (k // 4) % 2 == 1
+    enc = ENCODINGS[k % 5]
+    hexbm = (k // 5) % 2 == 1
     rng = ctx.rng_global('c08base', k)
     if k % 11 == 10:
         cid = ['special', 0]
@@ -62,6 +62,8 @@ def base(ctx, k):
 def family_iter(ctx, fam, data, L, enc, hexbm, k):
     if fam == 'identity':
         return [('identity', data)]
+    if fam == 'hex_bitmap_spellings':
+        return mutate.hex_bitmap_spellings(data, hexbm)
     if fam == 'valid_variants':
         # fresh well-formed messages under the same configuration / codec / bitmap: all must be accepted
         cid = base(ctx, k)[0]
@@ -196,6 +198,8 @@ def judge(ctx, case):
                 judge_one(ctx, mutant, cid, enc, hexbm, how, fam != 'multipoint')
                 n += 1
             ctx.count('inputs from family ' + fam, n)
+        if enc == 'utf_8' and any(b > 0x7f for b in data[36 if hexbm else 20:]):
+            ctx.count('bases with multi-byte characters in variable elements')
         ctx.seen('base shapes', '%s/%s/%s' % (cid if cid == 'packaged' else cid[0], enc, 'hex' if hexbm else 'raw'))
         if len(ctx.samples) < 3:
             ctx.sample({'base': k, 'cfg': cid, 'enc': enc, 'hex_bitmap': hexbm, 'wire_len': len(data),
@@ -247,6 +251,10 @@ def require(m):
     for cls in ('must-accept', 'must-reject', 'dont-care'):
         if not c.get('class: ' + cls):
             reasons.append('class never produced: ' + cls)
+    if not c.get('bases with multi-byte characters in variable elements'):
+        reasons.append('no base with multi-byte characters')
+    if not c.get('inputs from family hex_bitmap_spellings'):
+        reasons.append('hex bitmap spellings never produced')
     if not c.get('inputs from family constructed_overlaps'):
         reasons.append('constructed overlaps never produced')
     need = {'negative_length', 'element_outside_message', 'bytes_left_over', 'unconfigured_bit'}
